@@ -23,7 +23,9 @@ StepsOf(c) == CASE c = "version" -> 0 [] c = "getPubKey" -> 1 [] c = "sign_hash"
 \* uiHeartbeat exchanges 2 and 9 (1-based) are EXIT: the device answers by dropping the link, which
 \* the code treats as success; link errors are not injected there (time-outs are).
 ExitStep(c, k) == c = "uiHeartbeat" /\ k \in {2, 9}
-Kinds == {"write", "read", "timeout"}
+Kinds == {"write", "read", "timeout", "connfail"}
+\* "connfail": only at the EXIT exchanges of uiHeartbeat - the device drops off the bus as it always does there, but
+\* is not back yet when the command re-opens the link one second later
 
 VARIABLES pc, commIssue, cmd, k, reqNo, fault, connFail, obs, bad, plan, bfault
 vars == <<pc, commIssue, cmd, k, reqNo, fault, connFail, obs, bad, plan, bfault>>
@@ -38,7 +40,8 @@ Emit(e) == LET n == Observe(obs, e, NInit) IN
 Init == /\ pc = "idle" /\ commIssue = FALSE /\ cmd = "none" /\ k = 0 /\ reqNo = 0
         /\ \E c \in Cmds : StepsOf(c) > 0 /\
              \E p \in 1..StepsOf(c), kd \in Kinds :
-                /\ ~(ExitStep(c, p) /\ kd # "timeout")
+                /\ ~(ExitStep(c, p) /\ kd \notin {"timeout", "connfail"})
+                /\ (kd = "connfail" => ExitStep(c, p))
                 /\ fault = [pos |-> p, kind |-> kd]
                 /\ \E cf \in 0..MaxConnFail, f \in Cmds, bt \in BTimeouts :
                      /\ connFail = cf /\ bfault = bt
@@ -79,7 +82,17 @@ Bringup == /\ pc = "bringup" /\ k < NInit
 CmdStart == /\ pc = "cmd0" /\ k' = 0 /\ pc' = "cmd"
             /\ UNCHANGED <<commIssue, cmd, reqNo, fault, connFail, obs, bad, plan, bfault>>
 
-Exchange == /\ pc = "cmd" /\ k < StepsOf(cmd)
+\* the in-command re-opening that fails: drop (normal), close, open(fail) -> HSM2DongleCommError -> flag set, device error
+ExitDrop == /\ pc = "cmd" /\ k < StepsOf(cmd) /\ reqNo = 1 /\ fault.pos = k + 1 /\ fault.kind = "connfail"
+            /\ Emit([E0("apdu") EXCEPT !.fault = "drop"]) /\ pc' = "exitclose"
+            /\ UNCHANGED <<commIssue, cmd, k, reqNo, fault, connFail, plan, bfault>>
+ExitClose == /\ pc = "exitclose" /\ Emit(E0("close")) /\ pc' = "exitopen"
+             /\ UNCHANGED <<commIssue, cmd, k, reqNo, fault, connFail, plan, bfault>>
+ExitOpenFail == /\ pc = "exitopen" /\ Emit([E0("open") EXCEPT !.ok = "f"])
+                /\ fault' = [fault EXCEPT !.pos = 0] /\ commIssue' = TRUE /\ pc' = "faultreply"
+                /\ UNCHANGED <<cmd, k, reqNo, connFail, plan, bfault>>
+
+Exchange == /\ pc = "cmd" /\ k < StepsOf(cmd) /\ ~(reqNo = 1 /\ fault.pos = k + 1 /\ fault.kind = "connfail")
             /\ IF reqNo = 1 /\ fault.pos = k + 1
                THEN /\ Emit([E0("apdu") EXCEPT !.fault = fault.kind])
                     /\ fault' = [fault EXCEPT !.pos = 0]
@@ -94,7 +107,7 @@ Finish == /\ pc \in {"cmd", "finish"} /\ k = StepsOf(cmd)
           /\ Emit([E0("reply") EXCEPT !.code = 0]) /\ pc' = "idle"
           /\ UNCHANGED <<commIssue, cmd, k, reqNo, fault, connFail, plan, bfault>>
 
-Next == Begin \/ Close \/ Open \/ FailReply \/ Bringup \/ CmdStart \/ Exchange \/ FaultReply \/ Finish
+Next == ExitDrop \/ ExitClose \/ ExitOpenFail \/ Begin \/ Close \/ Open \/ FailReply \/ Bringup \/ CmdStart \/ Exchange \/ FaultReply \/ Finish
 Spec == Init /\ [][Next]_vars
 
 NoViolation == bad = ""
